@@ -31,8 +31,12 @@ def generate(rng, tier):
                 lenF, lenG, lenH = rng.choice([1, 2, 0x10, 0x40]), rng.choice([1, 2, 0x10]), rng.choice([1, 0x20])
                 bs = rng.choice([0, 0x100000000])
                 a0 = pos
+                # J: one function whose CFI changes at offset rJ (a cold block after a noreturn call): the boundary between
+                # two ROWS of one FDE is looked up the same way
+                rJ = rng.choice([1, 2, 0x10])
                 fA = [dict(start=bs + 0x100, len=lenF, rows=[(0, delta_row(arch, 2))]),
-                      dict(start=bs + 0x100 + lenF, len=lenG, rows=[(0, delta_row(arch, 3))])]
+                      dict(start=bs + 0x100 + lenF, len=lenG, rows=[(0, delta_row(arch, 3))]),
+                      dict(start=bs + 0x80, len=rJ + 4, rows=[(0, delta_row(arch, 6)), (rJ, delta_row(arch, 7))])]
                 endA = a0 + 0x100 + lenF + lenG
                 s.module_dwarf("M%d" % mi, a0, endA, a0, bs, pres, fA, rng, shuffle=rng.chance(1, 2))
                 s.add("add U M%d" % mi); mi += 1
@@ -41,7 +45,7 @@ def generate(rng, tier):
                 s.add("add U M%d" % mi); mi += 1
                 e1 = a0 + 0x100 + lenF          # F|G boundary (same module)
                 e2 = endA                       # G|H boundary (module boundary)
-                probes += [(pres, "same", e1, 2, 3), (pres, "cross", e2, 3, 4)]
+                probes += [(pres, "same", e1, 2, 3), (pres, "cross", e2, 3, 4), (pres, "row", a0 + 0x80 + rJ, 6, 7)]
                 # module C: its last function runs to the very end of the image and nothing is mapped behind it
                 # (a noreturn call as the last instruction of the image; for the last C, of the whole address space known)
                 c0 = endA + lenH + 0x10 + 0x100 * rng.range(1, 4)
